@@ -139,7 +139,9 @@ def candleAdd (inToks r1 r2 r3 : List String) : Option String :=
     if l != r then some "model: Candle + is not associative (exact arithmetic)" else
     let chk (toks : List String) (k : Candle Rat) (what : String) : Option String :=
       firstSome [numOk c (toks.getD 0 "") k.open_ 0, numOk c (toks.getD 1 "") k.high 0, numOk c (toks.getD 2 "") k.low 0,
-        numOk c (toks.getD 3 "") k.close 0, numOk c (toks.getD 4 "") k.volume (8 * c.eps * ratAbs k.volume)] |>.map (what ++ ": " ++ ·)
+        -- the volume is a floating-point sum: its error is relative to the magnitudes added (signs may differ in malformed input)
+        numOk c (toks.getD 3 "") k.close 0,
+        numOk c (toks.getD 4 "") k.volume (8 * c.eps * (ratAbs a.volume + ratAbs b.volume + ratAbs d.volume))] |>.map (what ++ ": " ++ ·)
     firstSome [chk r1 ab "a+b", chk r2 l "(a+b)+c", chk r3 r "a+(b+c)"]
   | _, _, _ =>
     -- a non-finite field somewhere: no rational model; associativity itself is still decidable on the results
